@@ -112,7 +112,8 @@ def run(rep):
     if len(probes) < 150:
         raise Machinery("too few probes: %d" % len(probes))
     for i, q in enumerate(probes):
-        cases.append({"id": "p%d:%s" % (i, "/".join(str(q[k]) for k in sorted(q))), "kind": "probe", "src": c03_driver.render_probe(q)})
+        cases.append({"id": "p%d:%s" % (i, "/".join(str(q[k]) for k in sorted(q))), "kind": "probe", "src": c03_driver.render_probe(q),
+                      "nocalls": q["fam"] == "rebind" and q["val"] != "hostfn.bind(null)" or q["fam"] == "rebind"})
     rep.spaces.append({"space": "probes: callback this/arguments, match results, conversions, call forms, None-returning host function, JSON callbacks",
                        "cases": len(probes), "complete": not quick})
     cases.append({"id": "retprobe", "kind": "ret_probe"})
